@@ -115,6 +115,11 @@ class Acc:
             self.all_keys.add(k)
             if res.get('nontrivial'):
                 self.nontrivial_keys.add(k)
+        for kk in res.get('nontrivial_keys', ()):
+            self.nontrivial_keys.add(kk)
+            self.all_keys.add(kk)
+        for c, n in (res.get('class_counts') or {}).items():
+            self.classes[c] = self.classes.get(c, 0) + n
         for c in res.get('classes', ()):
             self.classes[c] = self.classes.get(c, 0) + 1
         inc = res.get('inconclusive')
@@ -136,7 +141,8 @@ class Acc:
                 self.failures[b] = (n + 1, first)
             else:
                 self.failures[b] = (1, f)
-        if res.get('sample') is not None and res.get('nontrivial') and \
+        if res.get('sample') is not None and (
+                res.get('nontrivial') or res.get('nontrivial_keys')) and \
                 len(self.samples) < max_samples:
             self.samples.append(res['sample'])
 
